@@ -2,7 +2,7 @@
    Statements only; every proof is `exact <lemma>`.  Model: ec_glob / glob_loop / glob_scan of ExDefs.v over
    the line buffer whose ln_glob bits (and ghost identities) travel with the lines in lbuf_replace. *)
 From Coq Require Import List NArith ZArith Bool.
-From NV Require Import Bytes ExDefs ExSpec ExProps GlobDefs GlobProps GlobTrack GlobUniq.
+From NV Require Import Bytes ExDefs ExSpec ExProps GlobDefs GlobProps GlobTrack GlobUniq GlobNest.
 Import ListNotations.
 
 (* THE VISIT THEOREM.  ec_glob, after resolving its range [b, b+n+1) and compiling the pattern, runs
@@ -179,3 +179,45 @@ Proof.
   - split; [intros j Hj; assert (j = 0)%nat by Lia.lia; subst; reflexivity|].
     exists (@nil nat). split; [reflexivity|]. cbn. apply sub_refl.
 Qed.
+
+(* ------------------------------------------------------------------------------------------ *)
+(* ANY COMMAND LIST AS THE EXECUTOR, AND THE STATE IN WHICH A GLOBAL STARTS (coq/GlobNest.v).
+   C15_any_command_list_tracks: for ANY command line run by ex_exec -- several commands, nested globals (which mark and
+   sweep at deeper depths), u, !, @, w -- from ANY state, and for every depth dep up to the nesting depth of that state (the
+   depths of the enclosing globals; for the executor of a global these include its own depth): the nesting depth is
+   restored, identities stay unique and nextid only grows, a mark of depth dep is dropped only together with its line, no
+   identity returns (pres_lb), and no mark of depth dep appears (sub (mids') (mids)).  These are pres_exec and the first half
+   of good_exec for every executor ex_exec f 0, restricted to the states in which a global runs its command list.
+   The second half of good_exec (tracks_low: no still-marked line above min(i, xrow')) is FALSE for such lists -- KF-GLOB-LOW
+   for several commands, and C15_undo_is_not_a_good_executor for the single command u -- so C15_visits is not instantiated
+   for them. *)
+Theorem C15_any_command_list_tracks : forall rvalid rfind filter readfile curpath fuel body s s' r dep,
+  ex_exec rvalid rfind filter readfile curpath fuel 0 body s = (s', r) -> (dep <= xgdep s)%nat ->
+  xgdep s' = xgdep s /\ pres_lb (N.of_nat dep) (lb s) (lb s') /\
+  sub (mids (N.of_nat dep) (lns (lb s'))) (mids (N.of_nat dep) (lns (lb s))).
+Proof. exact any_list_pres. Qed.
+Print Assumptions C15_any_command_list_tracks.
+
+Theorem C15_undo_is_not_a_good_executor : ~ good_exec (fun _ s => ec_undo s) 1%N.
+Proof. exact undo_not_good_exec. Qed.
+Print Assumptions C15_undo_is_not_a_good_executor.
+
+(* EVERY GLOBAL STARTS CLEAN.  GI s = identities unique and below nextid, and no line carries a mark of any depth above
+   the nesting depth of s.  It holds in the initial state, after every command line of any script (ex_main), and between
+   the commands of a line (ex_exec from any GI state, any rest of a line) -- so whenever ec_glob starts at nesting depth d
+   its buffer satisfies `uniq` and `nomarks (d+1)`, the two hypotheses of C15_visits_every_remaining_line / C15_visits. *)
+Theorem C15_global_starts_clean : forall rvalid rfind filter readfile curpath,
+  (forall data input wa, GI (init_st data input wa)) /\
+  (forall fuel ret ln s, GI s -> GI (fst (ex_exec rvalid rfind filter readfile curpath fuel ret ln s))) /\
+  (forall n fuel s, GI s -> GI (ex_main rvalid rfind filter readfile curpath n fuel s)) /\
+  (forall s, GI s -> uniq (lb s) /\ nomarks (N.of_nat (S (xgdep s))) (lns (lb s))).
+Proof. exact (fun rvalid rfind filter readfile curpath =>
+  conj GI_init (conj (GI_ex_exec rvalid rfind filter readfile curpath) (conj (GI_ex_main rvalid rfind filter readfile curpath)
+  (fun s H => conj (proj1 H) (proj2 H (S (xgdep s)) (le_n _)))))). Qed.
+Print Assumptions C15_global_starts_clean.
+
+(* the model's restart index is the repaired C expression i = MAX(0, MIN(i, xrow)) (/repo 5d2c325) *)
+Theorem C15_restart_index_clamped : forall (i : nat) (x : Z),
+  Z.to_nat (Z.min (Z.of_nat i) x) = Z.to_nat (Z.max 0 (Z.min (Z.of_nat i) x)).
+Proof. exact restart_clamped. Qed.
+Print Assumptions C15_restart_index_clamped.
